@@ -47,7 +47,9 @@ def gen_mech(rng, acyclic):
         for k in keys:
             r = rng.random()
             targets = list(range(i + 1, ns)) if acyclic else list(range(ns))
-            if r < 0.45 or not targets:
+            if r < 0.04:
+                t = ["recerr"]          # this branch bottoms out the stack: it alone becomes the sentinel
+            elif r < 0.45 or not targets:
                 t = ec.gen_value_term(rng)
             else:
                 tgt = rng.choice(targets)
